@@ -413,8 +413,10 @@ func (vf *VersionedFetcher) merge(c cid.Cid) error {
 		}
 	}
 
+	// The block is merged into the transient store only. The heads of the versioned state must
+	// not be written to the head store of the transaction that runs the query.
 	err = coreblock.ProcessBlock(
-		vf.ctx,
+		datastore.CtxSetTxn(vf.ctx, vf.store),
 		mcrdt,
 		block,
 		cidlink.Link{
